@@ -6,6 +6,7 @@ import (
 	"fmt"
 	"go/types"
 	"math/big"
+	"os"
 	"sort"
 	"strconv"
 	"strings"
@@ -20,7 +21,7 @@ type CEnv struct {
 	inOld     bool
 	headMem   map[string]*MemVer
 	cells     map[string]V // captured variables by name: the address of the variable
-	pol       bool // current polarity (true = positive)
+	pol       bool         // current polarity (true = positive)
 	fn        string
 	skolems   map[*CExpr]V       // forall nodes Skolemised ahead of time (at function entry)
 	harvest   bool               // collect instantiation terms instead of building formulas
@@ -66,6 +67,10 @@ func (env *CEnv) evalAny(e *CExpr) (v V, err error) {
 	return env.eval(e), nil
 }
 
+// rawForall: emit a quantified assumption to the solver when no instantiation term is known.
+// Off: such assumptions are only instantiated by the engine (sound: dropping an assumption).
+var rawForall = os.Getenv("PLENCVC_RAW_FORALL") == "1"
+
 func untyped(n *big.Int) V { return V{K: KBV, W: 0, T: n.String(), Signed: true} }
 
 func (env *CEnv) mem(space string) *MemVer {
@@ -87,19 +92,21 @@ func (env *CEnv) load8(space, a string) string {
 	if m == nil {
 		cfail("no memory space %s", space)
 	}
-	m.facts(env.st, a)
-	return app("select", m.term, a)
+	return env.st.read8(m, a)
 }
 
 func (env *CEnv) loadN(space, a string, n int) string {
 	if n == 1 {
 		return env.load8(space, a)
 	}
-	t := "(concat"
-	for i := n - 1; i >= 0; i-- {
-		t += " " + env.load8(space, bvadd(a, bvLit(uint64(i), 64)))
+	parts := make([]string, n)
+	for i := 0; i < n; i++ {
+		parts[n-1-i] = env.load8(space, bvadd(a, bvLit(uint64(i), 64)))
 	}
-	return t + ")"
+	if w := env.st.x.wholeValue(parts); w != "" {
+		return w
+	}
+	return env.st.define("cl", sortBV(8*n), "(concat "+strings.Join(parts, " ")+")")
 }
 
 func spaceOf(v V, def string) string {
@@ -267,6 +274,11 @@ func (env *CEnv) eval(e *CExpr) V {
 				}
 				return vBool(and(cs...))
 			}
+			if !rawForall {
+				// no instantiation term yet: the clause is registered (sawForall) and instantiated
+				// at every witness that appears later; queries stay quantifier free
+				return vBool("true")
+			}
 		}
 		env.st.x.fresh++
 		bn := fmt.Sprintf("q_%s_%d", e.Var, env.st.x.fresh)
@@ -317,10 +329,10 @@ func (env *CEnv) eval(e *CExpr) V {
 			if sl, ok := x.Typ.Underlying().(*types.Slice); ok && !isByte(sl.Elem()) {
 				// element of a typed slice: a typed load at ptr + i*size
 				es := uint64(sizeof(sl.Elem()))
-				off := app("bvmul", resize(i.T, i.W, 64, i.Signed), bvLit(es, 64))
-				if v, _, ok := litVal(i.T); ok {
-					off = bvLit(v*es, 64)
-				}
+				// the index is clamped into [0, 2^40) (an out-of-range index reads element 0: clauses guard their
+				// indexes, and Go itself panics there), so element addresses never wrap and two of them
+				// overlap exactly when their indexes are equal
+				off := env.elemOffset(i, es)
 				return env.loadTyped(vPtr(bvadd(x.Fs[0].T, off), x.Fs[0].Prov), sl.Elem())
 			}
 		}
@@ -358,6 +370,23 @@ func (env *CEnv) eval(e *CExpr) V {
 		np := vPtr(bvadd(p.T, lo), p.Prov)
 		return vTuple(np, vBV(bvsubw(hi, lo, 64), 64, true), vBV(bvsubw(c.T, lo, 64), 64, true))
 	case "field":
+		if ix := e.Args[0]; ix.Op == "index" {
+			// s[i].f on a slice of structs: only field f of the element is read
+			bx := env.eval(ix.Args[0])
+			if bx.K == KTuple && len(bx.Fs) == 3 && bx.Typ != nil {
+				if sl, ok := bx.Typ.Underlying().(*types.Slice); ok {
+					if _, isStruct := sl.Elem().Underlying().(*types.Struct); isStruct {
+						i := coerce(env.eval(ix.Args[1]), 64, true)
+						if env.prove && i.K == KBV && i.W == 64 && !env.st.inLate {
+							env.st.addPool(64, env.st.define("idx", sortBV(64), i.T))
+						}
+						p := vPtr(bvadd(bx.Fs[0].T, env.elemOffset(i, uint64(sizeof(sl.Elem())))), bx.Fs[0].Prov)
+						p.Typ = types.NewPointer(sl.Elem())
+						return env.field(p, e.Tok)
+					}
+				}
+			}
+		}
 		x := env.eval(e.Args[0])
 		return env.field(x, e.Tok)
 	case "call":
@@ -367,6 +396,19 @@ func (env *CEnv) eval(e *CExpr) V {
 	}
 	cfail("cannot evaluate %s", e.Op)
 	return V{}
+}
+
+// elemOffset is the byte offset of element i (clamped into [0, 2^40), see the index case) of a
+// slice with elements of es bytes.
+func (env *CEnv) elemOffset(i V, es uint64) string {
+	it := resize(i.T, i.W, 64, i.Signed)
+	if v, _, ok := litVal(it); ok && v < maxLen {
+		env.st.markBounded(bvLit(v, 64))
+		return bvLit(v*es, 64)
+	}
+	ci := env.st.define("ci", sortBV(64), ite(app("bvult", it, bvLit(maxLen, 64)), it, bvLit(0, 64)))
+	env.st.markBounded(ci)
+	return app("bvmul", ci, bvLit(es, 64))
 }
 
 func (env *CEnv) evalPol(e *CExpr, flip bool) V {
@@ -448,6 +490,43 @@ func seqEq(env *CEnv, a, b *Seq) string {
 		j := env.st.freshConst("sk_j", sortBV(64))
 		env.st.addPool(64, j)
 		return and(lenEq, implies(app("bvult", j, a.Len), eq(a.Byte(j), b.Byte(j))))
+	}
+	if !rawForall {
+		// assume side without quantifiers: the statically bounded operands of a concatenation are
+		// spelled out position by position, and the general statement is instantiated by the engine
+		// at the known index terms (now and, through the enclosing clause, at every later witness)
+		cs := []string{lenEq}
+		anchor := func(x, y *Seq) {
+			if len(x.Parts) == 0 {
+				return
+			}
+			off := bvLit(0, 64)
+			for _, p := range x.Parts {
+				if p.Max > 0 && p.Max <= 24 {
+					for i := 0; i < p.Max; i++ {
+						k := bvLit(uint64(i), 64)
+						cs = append(cs, implies(app("bvult", k, p.Len), eq(y.Byte(bvadd(off, k)), p.Byte(k))))
+					}
+				}
+				off = bvadd(off, p.Len)
+			}
+		}
+		anchor(a, b)
+		anchor(b, a)
+		env.sawForall = true
+		inst := func(t string) {
+			cs = append(cs, implies(app("bvult", t, a.Len), eq(a.Byte(t), b.Byte(t))))
+		}
+		if env.onlyTerm != nil {
+			if t, ok := env.onlyTerm[64]; ok {
+				inst(t)
+			}
+		} else {
+			for _, t := range env.st.pool[64] {
+				inst(t)
+			}
+		}
+		return and(cs...)
 	}
 	env.st.x.fresh++
 	bn := fmt.Sprintf("q_j_%d", env.st.x.fresh)
@@ -1012,6 +1091,24 @@ func (env *CEnv) call(e *CExpr) V {
 			}
 		}
 		cfail("loadT(T, ptr) needs a type name")
+	case "disjoint":
+		// disjoint(p, n, q, m): the byte ranges [p, p+n) and [q, q+m) do not overlap (an empty range overlaps nothing)
+		if len(e.Args) != 4 {
+			cfail("disjoint(p, n, q, m)")
+		}
+		pv := func(i int) string {
+			v := arg(i)
+			if v.K == KTuple && len(v.Fs) >= 1 {
+				v = v.Fs[0]
+			}
+			if v.K != KPtr && v.K != KBV {
+				cfail("disjoint: argument %d is not an address", i)
+			}
+			return v.T
+		}
+		nv := func(i int) string { return coerce(arg(i), 64, true).T }
+		p, n, q, m := pv(0), nv(1), pv(2), nv(3)
+		return vBool(or(eq(n, bvLit(0, 64)), eq(m, bvLit(0, 64)), app("bvule", bvadd(p, n), q), app("bvule", bvadd(q, m), p)))
 	case "isnil":
 		v := arg(0)
 		if v.K == KTuple {
@@ -1258,6 +1355,15 @@ func (env *CEnv) ghostCall(e *CExpr) V {
 // loadTyped reads a value of Go type t at addr in the memory current for this evaluation.
 func (env *CEnv) loadTyped(addr V, t types.Type) V {
 	space := spaceOf(addr, "H")
+	if addr.Prov != nil && strings.HasPrefix(addr.Prov.Region, "fresh#") && space == "H" {
+		env.st.loadFresh = true
+		defer func() { env.st.loadFresh = false }()
+	}
+	if addr.Prov != nil && addr.Prov.Region == "meta" && space == "H" {
+		env.st.loadMeta = true
+		defer func() { env.st.loadMeta = false }()
+		env.st.assumeMeta(addr.T, sizeof(t))
+	}
 	return env.st.withTypeInv(t, build(t, func(ls leafShape) V {
 		a := bvadd(addr.T, bvLit(uint64(ls.Off), 64))
 		switch ls.K {
@@ -1265,6 +1371,10 @@ func (env *CEnv) loadTyped(addr V, t types.Type) V {
 			return vBool(not(eq(env.load8(space, a), bvLit(0, 8))))
 		case KPtr:
 			t := env.loadN(space, a, 8)
+			if p, ok := env.st.shadow[space+"@"+a]; ok && (strings.HasPrefix(p.Space, "H:sep") || !env.inOld) {
+				// the provenance recorded when this slot was last stored on this path
+				return vPtr(t, p)
+			}
 			if ls.ByteElem {
 				return vPtr(t, &Prov{Space: "B", Region: "owned"})
 			}
